@@ -606,6 +606,20 @@ class FullOps(TorchCalls):
                             why=f"{fn} compares a degree-{a0.deg} quantity with a degree-{b.deg} bound")
                 out = self.elementwise(out, b, "max", node)
             return out.but(alias=False, poly=None)
+        if fn == "lerp" and len(args) + (1 if "weight" in kwargs else 0) + (1 if "end" in kwargs else 0) == 3:
+            # lerp(a, b, w) = a + w * (b - a)
+            b_, w_ = tv_of(args[1] if len(args) > 1 else kwargs["end"]), tv_of(args[2] if len(args) > 2 else kwargs["weight"])
+            if b_ is not None and w_ is not None:
+                return self.elementwise(a0, self.elementwise(w_, self.elementwise(b_, a0, "sub", node), "mul", node), "add", node)
+        if fn in ("addcmul", "addcdiv") and len(args) == 3:
+            # addcmul(a, t1, t2, value=v) = a + v * t1 * t2
+            t1, t2 = tv_of(args[1]), tv_of(args[2])
+            if t1 is not None and t2 is not None:
+                pr = self.elementwise(t1, t2, "mul" if fn == "addcmul" else "div", node)
+                v_ = tv_of(kwargs["value"]) if "value" in kwargs else None
+                if v_ is not None:
+                    pr = self.elementwise(v_, pr, "mul", node)
+                return self.elementwise(a0, pr, "add", node)
         if fn == "where":
             c, x, y = (tv_of(v) for v in (args + [None, None])[:3])
             if x is None or y is None:
@@ -710,6 +724,8 @@ class FullOps(TorchCalls):
                     o = "?"
             keep = self.interp.truth(kwargs.get("keepdim", kwargs.get("keepdims", FALSE))) or False
             r = self.reduce(a0, f2, dim, keep, node, ord_=o)
+            if isinstance(r, TV) and fn in ("sum", "mean", "prod", "nansum", "norm", "vector_norm") and kwargs.get("dtype") not in (None, NONE):
+                r = r.but(dtype=self.dtype_from_kwargs(kwargs, r.dtype, node))  # sum(x, dtype=d): the result is of dtype d
             if fn in ("max", "min", "median") and dim is not None and not np_ and isinstance(r, TV):
                 idx = self.arg_reduce(a0, "arg" + fn, dim, node)
                 return ListV(items=(r, idx), kind="tuple")
